@@ -640,11 +640,27 @@ func execHash(body json.RawMessage) *kernel.Result {
 		accN++
 		acc := fmt.Sprintf("acc%d", accN)
 		for _, rf := range []struct{ name, code string }{
-			{"range-macro", "(def " + acc + "m []) (range k v h (set " + acc + "m (append " + acc + "m v))) " + acc + "m"},
-			{"range-go", "(def " + acc + "g []) {for k, v := range h { " + acc + "g = (append " + acc + "g v) }} " + acc + "g"},
+			{"range-macro", "(def " + acc + "m []) (def " + acc + "mk (list)) (range k v h (set " + acc + "m (append " + acc + "m v)) (set " + acc + "mk (cons k " + acc + "mk))) (list " + acc + "m " + acc + "mk)"},
+			{"range-go", "(def " + acc + "g []) (def " + acc + "gk (list)) {for k, v := range h { " + acc + "g = (append " + acc + "g v); " + acc + "gk = (cons k " + acc + "gk) }} (list " + acc + "g " + acc + "gk)"},
 		} {
 			o = ev(rf.code)
-			if arr, isArr := o.Val.(*zygo.SexpArray); !o.OK() || !isArr {
+			var arr *zygo.SexpArray
+			var keysSeen []string
+			if pr, isPair := o.Val.(*zygo.SexpPair); o.OK() && isPair {
+				arr, _ = pr.Head.(*zygo.SexpArray)
+				if t, isT := pr.Tail.(*zygo.SexpPair); isT {
+					// the keys were consed up: last visited first
+					for x := t.Head; x != zygo.SexpNull; {
+						c, isC := x.(*zygo.SexpPair)
+						if !isC {
+							break
+						}
+						keysSeen = append([]string{sexpCanon(c.Head, symnums)}, keysSeen...)
+						x = c.Tail
+					}
+				}
+			}
+			if arr == nil {
 				fail("C14.O-order", rf.name, "step %d: %s gave %s", step, rf.code, o)
 				ok = false
 			} else {
@@ -658,6 +674,9 @@ func execHash(body json.RawMessage) *kernel.Result {
 				}
 				if !eqInts(got, m.valueList()) {
 					fail("C14.O-order", rf.name, "step %d: range visited values %v, model %v", step, got, m.valueList())
+					ok = false
+				} else if strings.Join(keysSeen, "\x00") != strings.Join(m.keys, "\x00") {
+					fail("C14.O-order", rf.name+"-keys", "step %d: range presented the keys %v, model %v", step, keysSeen, m.keys)
 					ok = false
 				}
 			}
